@@ -82,13 +82,13 @@ section lookup
 open MosnVerif.Model.TransferLookup MosnVerif.Lemmas.TransferLookup
 
 /-- **handover_finds_listener**: for EVERY list of listeners of the new process and every connection whose local
-address was accepted by some listener `L` of the list — `L` configured on exactly that address, or on the IPv4 wildcard
-of its port (IPv4 connection), or on the IPv6 wildcard of its port (dual-stack socket: IPv6 AND IPv4 peers) — the
+address was accepted by some listener `L` of the list — `L` configured on exactly that address, or on the IPv4 or the
+IPv6 wildcard of its port (either opens a dual-stack socket: IPv6 AND IPv4 peers, whose local address is IPv4) — the
 regenerated look-up of `transferFindListen` returns a listener; it is a listener of the list, of the connection's
 network, configured on the connection's address or on a wildcard of its port; and unless the list holds another
 wildcard listener of that port it is `L` (its address) or a listener on exactly the connection's address. -/
 theorem handover_finds_listener (ls : List Lst) (L : Lst) (a : Local) (hm : L ∈ ls) (hacc : accepted L a) :
-    ∃ R, find ls a = some R ∧ R ∈ ls ∧ serves R a ∧
+    ∃ R, find ls a = some R ∧ R ∈ ls ∧ accepted R a ∧
       ((∀ M ∈ ls, M.network = a.network → (M.addr = v4wild a ∨ M.addr = v6wild a) → M.addr = L.addr) →
         R.addr = L.addr ∨ R.addr = a.str) := by
   obtain ⟨R, hR⟩ := findWith_isSome candidates ls a L hm hacc.1 (accepted_addr_mem_candidates L a hacc)
@@ -104,14 +104,14 @@ connection on that listener with exactly the bytes the old process had read and 
 the id it answers is the new connection's id, never `transferErr` -/
 theorem handover_adopts_with_buffer (ls : List Lst) (L : Lst) (a : Local) (hm : L ∈ ls) (hacc : accepted L a)
     (buffered tls : Bytes) (h1 : buffered.length < 4294967296) (h2 : tls.length < 4294967296) (newId : Nat) :
-    (∃ R, adopt ls a buffered tls = some (R, buffered, tls) ∧ R ∈ ls ∧ serves R a) ∧ answeredId ls a newId = newId := by
+    (∃ R, adopt ls a buffered tls = some (R, buffered, tls) ∧ R ∈ ls ∧ accepted R a) ∧ answeredId ls a newId = newId := by
   obtain ⟨R, hR, hmem, hs, _⟩ := handover_finds_listener ls L a hm hacc
   refine ⟨⟨R, ?_, hmem, hs⟩, ?_⟩
   · simp [adopt, hR, handover_buffer_intact buffered tls h1 h2]
   · simp [answeredId, hR]
 
 /-- a connection no listener of the new configuration serves is not adopted: the old process is told `transferErr` -/
-theorem handover_unserved_refused (ls : List Lst) (a : Local) (h : ∀ M ∈ ls, ¬ serves M a) (newId : Nat) :
+theorem handover_unserved_refused (ls : List Lst) (a : Local) (h : ∀ M ∈ ls, ¬ accepted M a) (newId : Nat) :
     find ls a = none ∧ answeredId ls a newId = Gen.Transfer.transferErr := by
   have hn : find ls a = none := by
     cases hf : find ls a with
